@@ -261,7 +261,8 @@ def special_corruption(sym, case, warm=()):
     text = None
     if case == "child-arch-outside-parent":
         ci, objs = base_composeinfo(0)
-        objs["Server-HA"].arches = set(["x86_64", "ppc64le"])
+        # the foreign arch is any known name the parent does not list - source arches included (sources are not implicitly everywhere)
+        objs["Server-HA"].arches = set(["x86_64", sym.choice("foreign_arch", ["ppc64le", "src", "nosrc", "noarch", "i386"])])
         top = ci
     elif case == "grandchild-arch-outside-parent-inside-top":
         ci, objs = base_composeinfo(0)
@@ -281,7 +282,7 @@ def special_corruption(sym, case, warm=()):
         v.uid = "Client-Extra"
         v.name = "x"
         v.type = "addon"
-        v.arches = set(["mips"])
+        v.arches = set([sym.choice("foreign_arch", ["mips", "src", "noarch"])])
         try:
             objs["Client"].add(v)
         except ValueError:
